@@ -423,6 +423,9 @@ func propMultiLin(t *rapid.T, c *cx) {
 	F, I := c.F, c.P
 	op := rapid.SampledFrom(mlOps).Draw(t, "op")
 	nv := rapid.IntRange(0, rep.Scale(6, 9)).Draw(t, "nv")
+	if strings.HasPrefix(op, "FoldParallel") { // enough entries for chunk boundaries of both parities
+		nv = rapid.SampledFrom([]int{1, 2, 3, 3, 4, 4, 5, 5, 6, 6}).Draw(t, "nvfold")
+	}
 	if strings.HasPrefix(op, "Fold") && nv == 0 {
 		nv = 1
 	}
